@@ -10,6 +10,6 @@ for d in seeded/${1:-*}/; do
   id=$(basename "$d"); c=${id%%-*}
   git -C "$WT" checkout -q -- . 
   git -C "$WT" apply "$PWD/$d/patch.diff" 2>/dev/null || { echo "$id: patch does not apply"; continue; }
-  VCHECK_REPO="$WT" ./check "$c" --tier quick --no-evidence > /tmp/seed_all_$id.log 2>&1; rc=$?
+  VCHECK_STOP_AT_FIRST_VIOLATION=1 VCHECK_REPO="$WT" ./check "$c" --tier quick --no-evidence > /tmp/seed_all_$id.log 2>&1; rc=$?
   echo "$id check=$c exit=$rc violations=$(grep -c '^VIOLATION' /tmp/seed_all_$id.log) $(grep -m1 'signature=' /tmp/seed_all_$id.log | cut -c1-120)"
 done
